@@ -68,6 +68,12 @@ MapsFor(slots) ==
                     ELSE IF t.k = "either"
                     THEN <<[k \in 1..n |-> IF k = i THEN Entry(ex[i].n, TEither(t.l, T16), VLeft(ZeroVal(t.l))) ELSE ex[k]],
                            [k \in 1..n |-> IF k = i THEN Entry(ex[i].n, TEither(T16, t.r), VRight(ZeroVal(t.r))) ELSE ex[k]]>>
+                    ELSE IF t.k = "tup" /\ t.es # <<>>
+                    \* a tuple with one component more / less, and the empty tuple
+                    THEN LET longer == TTup(t.es \o <<T8>>) shorter == TTup(Front(t.es)) IN
+                         <<[k \in 1..n |-> IF k = i THEN Entry(ex[i].n, longer, ZeroVal(longer)) ELSE ex[k]],
+                           [k \in 1..n |-> IF k = i THEN Entry(ex[i].n, shorter, ZeroVal(shorter)) ELSE ex[k]],
+                           [k \in 1..n |-> IF k = i THEN Entry(ex[i].n, TUnit, VUnit) ELSE ex[k]]>>
                     ELSE <<>>
       bad(i) == LET cl == ClassOf(slots[i].c) IN retype(i, cl[((CHOOSE k \in 1..Len(cl) : cl[k] = slots[i].t) % Len(cl)) + 1])
   IN <<ex, extra>>
